@@ -441,7 +441,70 @@ impl Rejects {
     }
 }
 
+// ---- sequences of literals in one expression (state carried from one literal to the next) -----
+
+fn seq_pool() -> Vec<(&'static str, Want)> {
+    vec![
+        ("-9223372036854775808", Want::Val(V::Int(i64::MIN))),
+        ("9223372036854775808", Want::Reject),
+        ("9223372036854775807", Want::Val(V::Int(i64::MAX))),
+        ("-9223372036854775807", Want::Val(V::Int(-i64::MAX))),
+        ("0x8000000000000000", Want::Reject),
+        ("-0x8000000000000000", Want::Val(V::Int(i64::MIN))),
+        ("- 9223372036854775808", Want::Val(V::Int(i64::MIN))),
+        ("-(9223372036854775808)", Want::Reject),
+        ("9223372036854775808u", Want::Val(V::UInt(1 << 63))),
+        ("18446744073709551615u", Want::Val(V::UInt(u64::MAX))),
+        ("18446744073709551616u", Want::Reject),
+        ("-1", Want::Val(V::Int(-1))),
+        ("0xff", Want::Val(V::Int(255))),
+        ("0XFu", Want::Val(V::UInt(15))),
+        ("1.5", Want::Val(V::Dbl(1.5))),
+        ("-1e3", Want::Val(V::Dbl(-1000.0))),
+        ("9223372036854775808.0", Want::Val(V::Dbl(9223372036854775808.0))),
+        ("'a'", Want::Val(V::s("a"))),
+        ("\"\\x41\"", Want::Val(V::s("A"))),
+        ("b'\\377'", Want::Val(V::Bytes(vec![255]))),
+        ("r'\\n'", Want::Val(V::s("\\n"))),
+        ("'\\ud800'", Want::Reject),
+        ("true", Want::Val(V::Bool(true))),
+        ("null", Want::Val(V::Null)),
+    ]
+}
+
+pub struct Seqs {
+    pool: Vec<(&'static str, Want)>,
+}
+impl Seqs {
+    fn new() -> Seqs {
+        Seqs { pool: seq_pool() }
+    }
+    fn size(&self) -> u64 {
+        let n = self.pool.len() as u64;
+        n * n + n * n * n
+    }
+    fn run(&self, idx: u64, acc: &mut Acc) {
+        let n = self.pool.len() as u64;
+        let ds = if idx < n * n { unrank(idx, &[n, n]) } else { unrank(idx - n * n, &[n, n, n]) };
+        let items: Vec<&(&'static str, Want)> = ds.iter().map(|d| &self.pool[*d as usize]).collect();
+        let src = format!("[{}]", items.iter().map(|i| i.0).collect::<Vec<_>>().join(", "));
+        let mut vals = Vec::new();
+        let mut reject = false;
+        for it in &items {
+            match &it.1 {
+                Want::Val(v) => vals.push(v.clone()),
+                Want::Reject => reject = true,
+            }
+        }
+        let want = if reject { Want::Reject } else { Want::Val(V::List(vals)) };
+        let site = if reject { "literal-sequence with-an-out-of-range-or-malformed-literal" } else { "literal-sequence" };
+        judge(acc, site, &src, &want);
+        acc.nontrivial(&src);
+    }
+}
+
 pub fn replay_families(t: Tier) -> Vec<Family<'static>> {
+    let q: &'static Seqs = Box::leak(Box::new(Seqs::new()));
     let i: &'static Ints = Box::leak(Box::new(Ints::new(t)));
     let d: &'static Dbls = Box::leak(Box::new(Dbls::new(t)));
     let s: &'static Strs = Box::leak(Box::new(Strs::new(t)));
@@ -452,12 +515,14 @@ pub fn replay_families(t: Tier) -> Vec<Family<'static>> {
         Family::new("strings", s.size(), move |x, a| s.run(x, a)),
         Family::new("bytes", Bytes.size(), move |x, a| Bytes.run(x, a)),
         Family::new("rejects", r.size(), move |x, a| r.run(x, a)),
+        Family::new("sequences", q.size(), move |x, a| q.run(x, a)),
     ]
 }
 
 pub fn run(t: Tier) -> i32 {
     let mut rep = Report::new(ID, t, "exploration");
-    rep.rule = "ints/uints: every +-2^k, +-2^k+-1 (k<=63/64) and boundary value in decimal and four hexadecimal spellings, u/U suffixes, negatives through unary minus, plus the first out-of-range magnitudes; doubles: sign x finite exponents (all 2047 in thorough) x 10 mantissa patterns x up to 7 spellings (shortest and 17-digit scientific, E/e, explicit +, plain decimal, leading/trailing dot); strings: all strings up to the length bound over 11 characters (quotes, backslash, LF, TAB, NUL, brace, 2/3/4-byte UTF-8) with every applicable escape form per character, both quotes, plain/f/r prefixes; bytes: all 256 single bytes in every spelling and all pairs over 6 bytes; rejections: every proper prefix of every escape form, surrogates, code points above 10FFFF, malformed octal. The generator knows the value it spelled; the result must equal it bit for bit (or be a syntax error for the rejection set). Every case is non-trivial; distinct by source text".to_string();
+    rep.rule = "ints/uints: every +-2^k, +-2^k+-1 (k<=63/64) and boundary value in decimal and four hexadecimal spellings, u/U suffixes, negatives through unary minus, plus the first out-of-range magnitudes; doubles: sign x finite exponents (all 2047 in thorough) x 10 mantissa patterns x up to 7 spellings (shortest and 17-digit scientific, E/e, explicit +, plain decimal, leading/trailing dot); strings: all strings up to the length bound over 11 characters (quotes, backslash, LF, TAB, NUL, brace, 2/3/4-byte UTF-8) with every applicable escape form per character, both quotes, plain/f/r prefixes; bytes: all 256 single bytes in every spelling and all pairs over 6 bytes; rejections: every proper prefix of every escape form, surrogates, code points above 10FFFF, malformed octal; sequences: all ordered pairs and triples of 24 literal spellings (int/uint extremes in decimal and hex, the minimum int with and without a blank or parentheses after the minus, doubles, strings, bytes, raw strings, a surrogate escape) inside one list literal - a sequence with a rejected literal must be rejected as a whole, otherwise it is the list of the spelled values. The generator knows
+ the value it spelled; the result must equal it bit for bit (or be a syntax error for the rejection set). Every case is non-trivial; distinct by source text".to_string();
     for f in replay_families(t) {
         rep.run_family(f);
     }
